@@ -6,6 +6,7 @@ namespace Tbox.C04
 structure CbOk (c : Cb) : Prop where
   ownLoop    : c.loop = c.evLoop                       -- made by the pass of the event's own loop
   subscribed : c.subscribed = true                     -- the event was enabled and subscribed to that signal
+  alive      : c.alive = true                          -- the object existed
   oneshot    : c.oneshot = true → c.enabledInCb = false ∧ c.firedBefore = 0
   persist    : c.oneshot = false → c.enabledInCb = true
 
@@ -35,65 +36,78 @@ theorem core_congr {s s' : State} (h : Core s) (h1 : s'.os = s.os) (h2 : s'.ctxs
 theorem subsOf_congr {s s' : State} (h : s'.subs = s.subs) (l g : Nat) : subsOf s' l g = subsOf s l g := by
   unfold subsOf; rw [h]
 
-/-! ### enable: subscribe to every signal of the set -/
+/-! ### enable: subscribe to every signal of the set, until one fails -/
 
-theorem subscribeAll_core (s : State) (l e : Nat) (gs : List Nat) (h : Core s) : Core (subscribeAll s l e gs) := by
-  induction gs generalizing s with
-  | nil => exact h
-  | cons g gs ih => exact ih _ (subscribe_core s l g e h)
+/-- everything later proofs need to know about the loop of `enable()` -/
+structure SubAll (s : State) (l e : Nat) (gs : List Nat) (r : State × List Nat × Bool) : Prop where
+  core  : Core r.1
+  evs   : r.1.evs = s.evs
+  nEv   : r.1.nEv = s.nEv
+  cbs   : r.1.cbs = s.cbs
+  calls : r.1.calls = s.calls
+  mem   : ∀ l' g' e', e' ∈ subsOf r.1 l' g' ↔ e' ∈ subsOf s l' g' ∨ (l' = l ∧ g' ∈ r.2.1 ∧ e' = e)
+  all   : r.2.2 = true → r.2.1 = gs
+  pre   : r.2.1 <+: gs
+  base  : ∀ g', baseDisp r.1 g' = baseDisp s g'
+  pipe  : ∀ l', r.1.pipe l' = s.pipe l' ∨ (l' = l ∧ r.1.pipe l' = [])
 
-theorem subscribeAll_evs (s : State) (l e : Nat) (gs : List Nat) : (subscribeAll s l e gs).evs = s.evs := by
-  induction gs generalizing s with
-  | nil => rfl
-  | cons g gs ih => rw [subscribeAll, ih, subscribe_evs]
+theorem subscribe_pipe_frame (s : State) (l g e l' : Nat) :
+    (subscribe s l g e).pipe l' = s.pipe l' ∨ (l' = l ∧ (subscribe s l g e).pipe l' = []) := by
+  rw [subscribe_pipe]
+  split
+  · left; rfl
+  · by_cases hl : l' = l
+    · right; simp [hl]
+    · left; simp [hl]
 
-theorem subscribeAll_nEv (s : State) (l e : Nat) (gs : List Nat) : (subscribeAll s l e gs).nEv = s.nEv := by
+theorem subscribeAllF_spec (s : State) (l e : Nat) (gs : List Nat) (h : Core s) :
+    SubAll s l e gs (subscribeAllF s l e gs) := by
   induction gs generalizing s with
-  | nil => rfl
-  | cons g gs ih => rw [subscribeAll, ih, subscribe_nEv]
-
-theorem subscribeAll_cbs (s : State) (l e : Nat) (gs : List Nat) : (subscribeAll s l e gs).cbs = s.cbs := by
-  induction gs generalizing s with
-  | nil => rfl
-  | cons g gs ih => rw [subscribeAll, ih, subscribe_cbs]
-
-theorem subscribeAll_calls (s : State) (l e : Nat) (gs : List Nat) : (subscribeAll s l e gs).calls = s.calls := by
-  induction gs generalizing s with
-  | nil => rfl
-  | cons g gs ih => rw [subscribeAll, ih, subscribe_calls]
-
-theorem mem_subsOf_subscribeAll (s : State) (l e : Nat) (gs : List Nat) (l' g' e' : Nat) :
-    e' ∈ subsOf (subscribeAll s l e gs) l' g' ↔ e' ∈ subsOf s l' g' ∨ (l' = l ∧ g' ∈ gs ∧ e' = e) := by
-  induction gs generalizing s with
-  | nil => simp [subscribeAll]
+  | nil =>
+    exact ⟨h, rfl, rfl, rfl, rfl, by simp [subscribeAllF], fun _ => rfl, List.prefix_refl _, fun _ => rfl, fun _ => Or.inl rfl⟩
   | cons g gs ih =>
-    rw [subscribeAll, ih, subsOf_subscribe]
-    by_cases hc : l' = l ∧ g' = g
-    · obtain ⟨rfl, rfl⟩ := hc
-      simp only [and_self, ↓reduceIte, mem_ins, List.mem_cons, true_or, true_and]
-      constructor
-      · rintro ((h | h) | ⟨_, h⟩)
-        · exact Or.inr h
-        · exact Or.inl h
-        · exact Or.inr h
-      · rintro (h | h)
-        · exact Or.inl (Or.inr h)
-        · exact Or.inl (Or.inl h)
-    · simp only [hc, ↓reduceIte, List.mem_cons]
-      constructor
-      · rintro (h | ⟨h1, h2, h3⟩)
-        · exact Or.inl h
-        · exact Or.inr ⟨h1, Or.inr h2, h3⟩
-      · rintro (h | ⟨h1, h2 | h2, h3⟩)
-        · exact Or.inl h
-        · exact absurd ⟨h1, h2⟩ hc
-        · exact Or.inr ⟨h1, h2, h3⟩
-
-theorem baseDisp_subscribeAll (s : State) (l e : Nat) (gs : List Nat) (g' : Nat) (h : Core s) :
-    baseDisp (subscribeAll s l e gs) g' = baseDisp s g' := by
-  induction gs generalizing s with
-  | nil => rfl
-  | cons g gs ih => rw [subscribeAll, ih _ (subscribe_core s l g e h), baseDisp_subscribe s l g e g' h]
+    unfold subscribeAllF
+    by_cases hf : subscribeFails s l g = true
+    · simp only [hf, ↓reduceIte]
+      rw [subscribeFail_eq s l g h hf]
+      exact ⟨touchCtx_core s g h, rfl, rfl, rfl, rfl, (by intro l' g' e'; simp [touchCtx, subsOf]), (by intro hh; cases hh),
+        List.nil_prefix, fun g' => baseDisp_touchCtx s g g', fun _ => Or.inl rfl⟩
+    · have hf' : subscribeFails s l g = false := by simpa using hf
+      simp only [hf', Bool.false_eq_true, ↓reduceIte]
+      have r := ih (subscribe s l g e) (subscribe_core s l g e h hf')
+      refine ⟨r.core, by rw [r.evs, subscribe_evs], by rw [r.nEv, subscribe_nEv], by rw [r.cbs, subscribe_cbs],
+        by rw [r.calls, subscribe_calls], ?_, ?_, ?_, ?_, ?_⟩
+      · intro l' g' e'
+        rw [r.mem, subsOf_subscribe]
+        by_cases hc : l' = l ∧ g' = g
+        · obtain ⟨rfl, rfl⟩ := hc
+          simp only [and_self, ↓reduceIte, mem_ins, List.mem_cons, true_or, true_and]
+          constructor
+          · rintro ((h1 | h1) | ⟨_, h1⟩)
+            · exact Or.inr h1
+            · exact Or.inl h1
+            · exact Or.inr h1
+          · rintro (h1 | h1)
+            · exact Or.inl (Or.inr h1)
+            · exact Or.inl (Or.inl h1)
+        · simp only [hc, ↓reduceIte, List.mem_cons]
+          constructor
+          · rintro (h1 | ⟨h1, h2, h3⟩)
+            · exact Or.inl h1
+            · exact Or.inr ⟨h1, Or.inr h2, h3⟩
+          · rintro (h1 | ⟨h1, h2 | h2, h3⟩)
+            · exact Or.inl h1
+            · exact absurd ⟨h1, h2⟩ hc
+            · exact Or.inr ⟨h1, h2, h3⟩
+      · intro hall; simp only at hall ⊢; rw [r.all hall]
+      · exact List.cons_prefix_cons.2 ⟨rfl, r.pre⟩
+      · intro g'; rw [r.base, baseDisp_subscribe]
+      · intro l'
+        rcases r.pipe l' with h1 | h1
+        · rcases subscribe_pipe_frame s l g e l' with h2 | h2
+          · left; rw [h1, h2]
+          · right; exact ⟨h2.1, by rw [h1, h2.2]⟩
+        · right; exact h1
 
 /-! ### disable: unsubscribe from every signal of the set -/
 
@@ -198,64 +212,115 @@ theorem setEv_core {s : State} (e : Nat) (v : Ev) (h : Core s) : Core (setEv s e
 
 /-! ### the API calls -/
 
-theorem enable_inv (s : State) (e : Nat) (h : Inv s) : Inv (enable s e).1 := by
-  unfold enable
+/-- same events, same subscriber relation, bookkeeping in order ⇒ invariant -/
+theorem inv_of_mem {s s1 : State} (h : Inv s) (hc : Core s1) (hev : s1.evs = s.evs) (hn : s1.nEv = s.nEv)
+    (hcb : s1.cbs = s.cbs) (hmem : ∀ l g e, e ∈ subsOf s1 l g ↔ e ∈ subsOf s l g) : Inv s1 := by
+  refine ⟨hc, ?_, ?_, ?_, ?_, ?_, ?_, ?_⟩
+  · intro l g e; rw [hmem, hev]; exact h.mem l g e
+  · rw [hev]; exact h.dead
+  · rw [hev]; exact h.uninit
+  · rw [hev]; exact h.sigsNd
+  · rw [hev, hn]; exact h.fresh
+  · rw [hev]; exact h.once
+  · rw [hcb]; exact h.cbsOk
+
+theorem enable_key (s : State) (e : Nat) (h : Inv s) (ha : (s.evs e).alive = true) (s1 : State) (hc : Core s1)
+    (hev : s1.evs = s.evs) (hn : s1.nEv = s.nEv) (hcb : s1.cbs = s.cbs)
+    (hmem : ∀ l g e', e' ∈ subsOf s1 l g ↔ e' ∈ subsOf s l g ∨ (l = (s.evs e).loop ∧ g ∈ (s.evs e).sigs ∧ e' = e)) :
+    Inv (setEv s1 e { s.evs e with enabled := true, fired := if (s.evs e).enabled then (s.evs e).fired else 0 }) := by
+  refine ⟨setEv_core _ _ hc, ?_, ?_, ?_, ?_, ?_, ?_, ?_⟩
+  · intro l g e'
+    rw [setEv_subsOf, hmem, h.mem]
+    by_cases he : e' = e
+    · subst he
+      simp only [setEv_evs, ↓reduceIte, true_and, and_true]
+      constructor
+      · rintro (⟨_, h2, h3⟩ | ⟨h1, h2⟩)
+        · exact ⟨h2, h3⟩
+        · exact ⟨h2, h1.symm⟩
+      · rintro ⟨h1, h2⟩; exact Or.inr ⟨h2.symm, h1⟩
+    · simp [he, hev]
+  · intro e' hd
+    by_cases he : e' = e
+    · subst he; simp [ha] at hd
+    · simp only [setEv_evs, he, ↓reduceIte, hev] at hd ⊢; exact h.dead e' hd
+  · intro e' hd
+    by_cases he : e' = e
+    · subst he; simp only [setEv_evs, ↓reduceIte] at hd ⊢; exact h.uninit e' hd
+    · simp only [setEv_evs, he, ↓reduceIte, hev] at hd ⊢; exact h.uninit e' hd
+  · intro e'
+    by_cases he : e' = e
+    · subst he; simp only [setEv_evs, ↓reduceIte]; exact h.sigsNd e'
+    · simp only [setEv_evs, he, ↓reduceIte, hev]; exact h.sigsNd e'
+  · intro e' hn'
+    rw [setEv_nEv, hn] at hn'
+    by_cases he : e' = e
+    · subst he; have := h.fresh e' hn'; simp [ha] at this
+    · simp only [setEv_evs, he, ↓reduceIte, hev]; exact h.fresh e' hn'
+  · intro e' ho hen
+    by_cases he : e' = e
+    · subst he
+      simp only [setEv_evs, ↓reduceIte] at ho ⊢
+      by_cases hen0 : (s.evs e').enabled = true
+      · simp only [hen0, ↓reduceIte]; exact h.once e' ho hen0
+      · simp [hen0]
+    · simp only [setEv_evs, he, ↓reduceIte, hev] at ho hen ⊢; exact h.once e' ho hen
+  · intro c hc'; rw [setEv_cbs, hcb] at hc'; exact h.cbsOk c hc'
+
+/-- the three outcomes of `enable()` on an initialised event, for the lemmas below -/
+theorem enable_cases (s : State) (e : Nat) (ha : (s.evs e).alive = true) (hi : (s.evs e).inited = true) :
+    let r := subscribeAllF s (s.evs e).loop e (s.evs e).sigs
+    (enable repaired s e).1 =
+      if r.2.2 then setEv r.1 e { s.evs e with enabled := true, fired := if (s.evs e).enabled then (s.evs e).fired else 0 }
+      else if (s.evs e).enabled then r.1 else unsubscribeAll r.1 (s.evs e).loop e r.2.1 := by
+  simp only [enable, ha, hi, repaired, Bool.not_true, Bool.false_eq_true, ↓reduceIte, Bool.true_and]
+  split
+  · rfl
+  · cases (s.evs e).enabled <;> simp
+
+theorem enable_inv (s : State) (e : Nat) (h : Inv s) : Inv (enable repaired s e).1 := by
   by_cases ha : (s.evs e).alive = true
-  case neg => simp only [ha, Bool.not_false, ↓reduceIte]; exact h
-  simp only [ha, Bool.not_true, Bool.false_eq_true, ↓reduceIte]
-  -- s1: after the subscriptions
-  have key : ∀ s1 : State, Core s1 → s1.evs = s.evs → s1.nEv = s.nEv → s1.cbs = s.cbs →
-      (∀ l g e', e' ∈ subsOf s1 l g ↔ e' ∈ subsOf s l g ∨ (l = (s.evs e).loop ∧ g ∈ (s.evs e).sigs ∧ e' = e)) →
-      Inv (setEv s1 e { s.evs e with enabled := true, fired := if (s.evs e).enabled then (s.evs e).fired else 0 }) := by
-    intro s1 hc hev hn hcb hmem
-    refine ⟨setEv_core _ _ hc, ?_, ?_, ?_, ?_, ?_, ?_, ?_⟩
-    · intro l g e'
-      rw [setEv_subsOf, hmem, h.mem]
-      by_cases he : e' = e
-      · subst he
-        simp only [setEv_evs, ↓reduceIte, true_and, and_true]
-        constructor
-        · rintro (⟨_, h2, h3⟩ | ⟨h1, h2⟩)
-          · exact ⟨h2, h3⟩
-          · exact ⟨h2, h1.symm⟩
-        · rintro ⟨h1, h2⟩; exact Or.inr ⟨h2.symm, h1⟩
-      · simp [he, hev]
-    · intro e' hd
-      by_cases he : e' = e
-      · subst he; simp [ha] at hd
-      · simp only [setEv_evs, he, ↓reduceIte, hev] at hd ⊢; exact h.dead e' hd
-    · intro e' hd
-      by_cases he : e' = e
-      · subst he; simp only [setEv_evs, ↓reduceIte] at hd ⊢; exact h.uninit e' hd
-      · simp only [setEv_evs, he, ↓reduceIte, hev] at hd ⊢; exact h.uninit e' hd
-    · intro e'
-      by_cases he : e' = e
-      · subst he; simp only [setEv_evs, ↓reduceIte]; exact h.sigsNd e'
-      · simp only [setEv_evs, he, ↓reduceIte, hev]; exact h.sigsNd e'
-    · intro e' hn'
-      rw [setEv_nEv, hn] at hn'
-      by_cases he : e' = e
-      · subst he; have := h.fresh e' hn'; simp [ha] at this
-      · simp only [setEv_evs, he, ↓reduceIte, hev]; exact h.fresh e' hn'
-    · intro e' ho hen
-      by_cases he : e' = e
-      · subst he
-        simp only [setEv_evs, ↓reduceIte] at ho ⊢
-        by_cases hen0 : (s.evs e').enabled = true
-        · simp only [hen0, ↓reduceIte]; exact h.once e' ho hen0
-        · simp [hen0]
-      · simp only [setEv_evs, he, ↓reduceIte, hev] at ho hen ⊢; exact h.once e' ho hen
-    · intro c hc'; rw [setEv_cbs, hcb] at hc'; exact h.cbsOk c hc'
+  case neg => simp only [enable, ha, Bool.not_false, ↓reduceIte]; exact h
   by_cases hi : (s.evs e).inited = true
-  · simp only [hi, ↓reduceIte]
-    have := key _ (subscribeAll_core s (s.evs e).loop e (s.evs e).sigs h.core) (subscribeAll_evs _ _ _ _) (subscribeAll_nEv _ _ _ _)
-      (subscribeAll_cbs _ _ _ _) (fun l g e' => mem_subsOf_subscribeAll _ _ _ _ _ _ _)
-    simp only [ha, hi] at this; exact this
-  · simp only [hi, Bool.false_eq_true, ↓reduceIte]
-    have hs : (s.evs e).sigs = [] := h.uninit e (by simpa using hi)
-    have := key s h.core rfl rfl rfl (fun l g e' => by simp [hs])
-    have hi' : (s.evs e).inited = false := by simpa using hi
-    simp only [ha, hi'] at this; exact this
+  · rw [enable_cases s e ha hi]
+    have r := subscribeAllF_spec s (s.evs e).loop e (s.evs e).sigs h.core
+    generalize subscribeAllF s (s.evs e).loop e (s.evs e).sigs = rr at r
+    simp only
+    by_cases hok : rr.2.2 = true
+    · simp only [hok, ↓reduceIte]
+      refine enable_key s e h ha _ r.core r.evs r.nEv r.cbs (fun l g e' => ?_)
+      rw [r.mem, r.all hok]
+    · simp only [hok, Bool.false_eq_true, ↓reduceIte]
+      have hsub : ∀ g, g ∈ rr.2.1 → g ∈ (s.evs e).sigs := fun g hg => r.pre.subset hg
+      by_cases hen : (s.evs e).enabled = true
+      · -- already enabled: every signal of the set was subscribed before
+        simp only [hen, ↓reduceIte]
+        refine inv_of_mem h r.core r.evs r.nEv r.cbs (fun l g e' => ?_)
+        rw [r.mem]
+        constructor
+        · rintro (h1 | ⟨rfl, h2, rfl⟩)
+          · exact h1
+          · exact (h.mem _ g e').2 ⟨hen, hsub g h2, rfl⟩
+        · exact Or.inl
+      · -- roll back
+        simp only [hen, Bool.false_eq_true, ↓reduceIte]
+        refine inv_of_mem h (unsubscribeAll_core _ _ _ _ r.core) (by rw [unsubscribeAll_evs, r.evs])
+          (by rw [unsubscribeAll_nEv, r.nEv]) (by rw [unsubscribeAll_cbs, r.cbs]) (fun l g e' => ?_)
+        rw [mem_subsOf_unsubscribeAll, r.mem]
+        constructor
+        · rintro ⟨h1 | h1, h2⟩
+          · exact h1
+          · exact absurd h1 h2
+        · intro h1
+          refine ⟨Or.inl h1, ?_⟩
+          rintro ⟨_, _, rfl⟩
+          exact hen ((h.mem l g e').1 h1).1
+  · have hi' : (s.evs e).inited = false := by simpa using hi
+    have hs : (s.evs e).sigs = [] := h.uninit e hi'
+    have := enable_key s e h ha s h.core rfl rfl rfl (fun l g e' => by simp [hs])
+    simp only [enable, ha, hi', Bool.not_true, Bool.false_eq_true, ↓reduceIte]
+    simp only [ha, hi'] at this
+    exact this
 
 theorem disable_inv (s : State) (e : Nat) (h : Inv s) : Inv (disable s e).1 := by
   unfold disable
@@ -410,41 +475,45 @@ theorem destroy_inv (s : State) (e : Nat) (h : Inv s) : Inv (destroy s e).1 := b
   · exact h1.cbsOk
 
 theorem initEv_inv (s : State) (e : Nat) (sigs : List Nat) (o : Bool) (h : Inv s)
-    (hv : valid s (.init e sigs o) = true) : Inv (initEv s e sigs o).1 := by
-  simp only [valid, Bool.and_eq_true, Bool.not_eq_eq_eq_not, Bool.not_true, decide_eq_true_eq] at hv
+    (hv : valid s (.init e sigs o) = true) : Inv (initEv repaired s e sigs o).1 := by
+  simp only [valid, decide_eq_true_eq] at hv
   unfold initEv
   by_cases ha : (s.evs e).alive = true
   case neg => simp only [ha, Bool.not_false, ↓reduceIte]; exact h
-  simp only [ha, Bool.not_true, Bool.false_eq_true, ↓reduceIte]
-  refine ⟨setEv_core _ _ h.core, ?_, ?_, ?_, ?_, ?_, ?_, ?_⟩
+  simp only [ha, Bool.not_true, Bool.false_eq_true, ↓reduceIte, repaired]
+  have h1 := disable_inv s e h
+  have hen := disable_enabled s e ha
+  have hal : ((disable s e).1.evs e).alive = true := by rw [disable_evs_self]; simp [ha]
+  generalize (disable s e).1 = s1 at h1 hen hal
+  refine ⟨setEv_core _ _ h1.core, ?_, ?_, ?_, ?_, ?_, ?_, ?_⟩
   · intro l g e'
-    rw [setEv_subsOf, h.mem]
+    rw [setEv_subsOf, h1.mem]
     by_cases he : e' = e
-    · subst he; simp [hv.1]
+    · subst he; simp [hen]
     · simp [he]
   · intro e' hd
     by_cases he : e' = e
-    · subst he; simp [hv.1]
-    · simp only [setEv_evs, he, ↓reduceIte] at hd ⊢; exact h.dead e' hd
+    · subst he; simp [hen]
+    · simp only [setEv_evs, he, ↓reduceIte] at hd ⊢; exact h1.dead e' hd
   · intro e' hd
     by_cases he : e' = e
     · subst he; simp at hd
-    · simp only [setEv_evs, he, ↓reduceIte] at hd ⊢; exact h.uninit e' hd
+    · simp only [setEv_evs, he, ↓reduceIte] at hd ⊢; exact h1.uninit e' hd
   · intro e'
     by_cases he : e' = e
-    · subst he; simp only [setEv_evs, ↓reduceIte]; exact hv.2
-    · simp only [setEv_evs, he, ↓reduceIte]; exact h.sigsNd e'
+    · subst he; simp only [setEv_evs, ↓reduceIte]; exact hv
+    · simp only [setEv_evs, he, ↓reduceIte]; exact h1.sigsNd e'
   · intro e' hn'
     by_cases he : e' = e
-    · subst he; have := h.fresh e' hn'; simp [ha] at this
-    · simp only [setEv_evs, he, ↓reduceIte]; exact h.fresh e' hn'
+    · subst he; have := h1.fresh e' hn'; simp [hal] at this
+    · simp only [setEv_evs, he, ↓reduceIte]; exact h1.fresh e' hn'
   · intro e' ho hen'
     by_cases he : e' = e
     · subst he; simp
-    · simp only [setEv_evs, he, ↓reduceIte] at ho hen' ⊢; exact h.once e' ho hen'
-  · exact h.cbsOk
+    · simp only [setEv_evs, he, ↓reduceIte] at ho hen' ⊢; exact h1.once e' ho hen'
+  · exact h1.cbsOk
 
-theorem newEv_inv (s : State) (l : Nat) (h : Inv s) : Inv (newEv s l) := by
+theorem newEv_inv (s : State) (l : Nat) (sc : List Act) (h : Inv s) : Inv (newEv s l sc) := by
   unfold newEv
   have hfr := h.fresh s.nEv (Nat.le_refl _)
   have hen := h.dead _ hfr
@@ -493,12 +562,13 @@ theorem setDisp_inv (s : State) (g : Nat) (d : Disp) (h : Inv s) (hv : valid s (
     Inv (setDisp s g d).1 := by
   simp only [valid, ne_eq, decide_not, Bool.not_eq_eq_eq_not, Bool.not_true, decide_eq_false_iff_not] at hv
   unfold setDisp
-  by_cases hk : (s.os g).kind = .tbox
+  by_cases hk : ((s.os g).kind = .tbox || !sigValid g) = true
   · simp only [hk, ↓reduceIte]; exact h
-  · simp only [hk, ↓reduceIte]
+  · simp only [hk, Bool.false_eq_true, ↓reduceIte]
+    simp only [Bool.or_eq_true, decide_eq_true_eq, Bool.not_eq_eq_eq_not, Bool.not_true, not_or, Bool.not_eq_false] at hk
     refine inv_of_core h ?_ rfl rfl rfl rfl
     have hc := h.core
-    refine ⟨hc.fdsIff, hc.ctxSome, ?_, hc.oldOk, hc.entries, hc.pipeIff, hc.pipeNil, hc.ndSubs, hc.ndFds⟩
+    refine ⟨hc.fdsIff, ?_, hc.oldOk, hc.invalid, hc.entries, hc.pipeIff, hc.pipeNil, hc.ndSubs, hc.ndFds⟩
     intro g'
     show (upd s.os g d g').kind = .tbox ↔ _
     by_cases hg : g' = g
@@ -506,7 +576,7 @@ theorem setDisp_inv (s : State) (g : Nat) (d : Disp) (h : Inv s) (hv : valid s (
       simp only [upd_apply, ↓reduceIte]
       constructor
       · intro hh; exact absurd hh hv
-      · intro hh; exact absurd ((hc.osTbox g').2 hh) hk
+      · intro hh; exact absurd ((hc.osTbox g').2 hh) hk.1
     · simp only [upd_apply, hg, ↓reduceIte]; exact hc.osTbox g'
 
 theorem appendPipes_nil_of_not_mem (pipe : Nat → List Nat) (g : Nat) (fds : List Nat) (l : Nat) (h : l ∉ fds) :
@@ -519,38 +589,54 @@ theorem raise_inv (s : State) (g : Nat) (h : Inv s) : Inv (raise s g).1 := by
   · exact h
   · exact h
   · exact inv_of_core h (core_congr h.core rfl rfl rfl rfl rfl) rfl rfl rfl rfl
-  · rename_i hk
-    have hc := h.core
-    have hsome := (hc.osTbox g).1 hk
-    obtain ⟨c, hcx⟩ := Option.isSome_iff_exists.1 hsome
-    have hctx : ctxOf s g = c := by simp [ctxOf, hcx]
-    have hupd : upd s.ctxs g (some (ctxOf s g)) = s.ctxs := by
-      funext i; by_cases hi : i = g
-      · subst hi; simp [hctx, hcx]
-      · simp [hi]
-    simp only [hupd]
+  · have hc := touchCtx_core s g h.core
     refine inv_of_core h ?_ rfl rfl rfl rfl
-    refine ⟨hc.fdsIff, hc.ctxSome, hc.osTbox, hc.oldOk, hc.entries, hc.pipeIff, ?_, hc.ndSubs, hc.ndFds⟩
+    refine ⟨hc.fdsIff, hc.osTbox, hc.oldOk, hc.invalid, hc.entries, hc.pipeIff, ?_, hc.ndSubs, hc.ndFds⟩
     intro l hp
     show appendPipes s.pipe g (ctxOf s g).fds l = []
     have hnot : l ∉ (ctxOf s g).fds := by
       intro hm
-      have : subsOf s l g ≠ [] := (hc.fdsIff g l).1 hm
-      have : s.subs l ≠ [] := (hc.subs_ne_nil_iff l).2 ⟨g, this⟩
-      have := (hc.pipeIff l).2 this
-      rw [hp] at this; cases this
+      have : subsOf s l g ≠ [] := (h.core.fdsIff g l).1 hm
+      have : s.subs l ≠ [] := (h.core.subs_ne_nil_iff l).2 ⟨g, this⟩
+      have := (h.core.pipeIff l).2 this
+      have hp' : s.hasPipe l = false := hp
+      rw [hp'] at this; cases this
     rw [appendPipes_nil_of_not_mem _ _ _ _ hnot]
-    exact hc.pipeNil l hp
+    exact h.core.pipeNil l hp
 
-/-! ### a loop pass -/
+/-! ### callbacks (scripts) and a loop pass -/
 
-theorem evOnSignal_inv (s : State) (l e g : Nat) (h : Inv s) (hm : e ∈ subsOf s l g) : Inv (evOnSignal s l e g) := by
+theorem act_inv (s : State) (l : Nat) (a : Act) (h : Inv s) : Inv (act repaired s l a) := by
+  cases a with
+  | enable j => simp only [act]; split <;> first | exact enable_inv s j h | exact h
+  | disable j => simp only [act]; split <;> first | exact disable_inv s j h | exact h
+  | destroy j => simp only [act]; split <;> first | exact destroy_inv s j h | exact h
+
+theorem runScript_inv (s : State) (l : Nat) (as : List Act) (h : Inv s) : Inv (runScript repaired s l as) := by
+  induction as generalizing s with
+  | nil => exact h
+  | cons a as ih => exact ih _ (act_inv s l a h)
+
+/-- `onSignal` up to (not including) the user callback -/
+def evPre (s : State) (l e g : Nat) : State :=
+  let v := s.evs e
+  let s1 := if v.oneshot then (disable s e).1 else s
+  let v1 := s1.evs e
+  let s2 := setEv s1 e { v1 with fired := v1.fired + 1 }
+  { s2 with cbs := { ev := e, sig := g, loop := l, enabledInCb := v1.enabled, oneshot := v.oneshot,
+                     firedBefore := v.fired, evLoop := v.loop,
+                     subscribed := v.enabled && v.sigs.contains g, alive := v.alive } :: s2.cbs }
+
+theorem evOnSignal_eq (fx : Fixes) (s : State) (l e g : Nat) :
+    evOnSignal fx s l e g = runScript fx (evPre s l e g) l (s.evs e).script := rfl
+
+theorem evPre_inv (s : State) (l e g : Nat) (h : Inv s) (hm : e ∈ subsOf s l g) : Inv (evPre s l e g) := by
   have hmem := (h.mem l g e).1 hm
   have halive : (s.evs e).alive = true := by
     cases ha : (s.evs e).alive with
     | true => rfl
     | false => have := h.dead e ha; rw [hmem.1] at this; cases this
-  unfold evOnSignal
+  unfold evPre
   by_cases ho : (s.evs e).oneshot = true
   · -- one-shot: disabled first
     simp only [ho, ↓reduceIte]
@@ -594,7 +680,7 @@ theorem evOnSignal_inv (s : State) (l e g : Nat) (h : Inv s) (hm : e ∈ subsOf 
     · intro c hc
       simp only [setEv, List.mem_cons] at hc
       rcases hc with rfl | hc
-      · refine ⟨hmem.2.2.symm, by simp [hmem.1, hmem.2.1], fun _ => ⟨by simp [hself], h.once e ho hmem.1⟩, fun hh => by simp [ho] at hh⟩
+      · refine ⟨hmem.2.2.symm, by simp [hmem.1, hmem.2.1], halive, fun _ => ⟨by simp [hself], h.once e ho hmem.1⟩, fun hh => by simp at hh⟩
       · rw [hcb] at hc; exact h.cbsOk c hc
   · -- persistent
     simp only [ho, Bool.false_eq_true, ↓reduceIte]
@@ -628,60 +714,82 @@ theorem evOnSignal_inv (s : State) (l e g : Nat) (h : Inv s) (hm : e ∈ subsOf 
     · intro c hc
       simp only [setEv, List.mem_cons] at hc
       rcases hc with rfl | hc
-      · refine ⟨hmem.2.2.symm, by simp [hmem.1, hmem.2.1], fun hh => absurd hh (by simp), fun _ => hmem.1⟩
+      · refine ⟨hmem.2.2.symm, by simp [hmem.1, hmem.2.1], halive, fun hh => absurd hh (by simp), fun _ => hmem.1⟩
       · exact h.cbsOk c hc
 
-/-- events other than e are untouched by e's `onSignal` -/
-theorem evOnSignal_evs_other (s : State) (l e g e' : Nat) (he : e' ≠ e) : (evOnSignal s l e g).evs e' = s.evs e' := by
-  unfold evOnSignal
-  simp only [setEv, upd_apply, he, ↓reduceIte]
-  split
-  · exact disable_evs_other s e e' he
-  · rfl
+theorem evOnSignal_inv (s : State) (l e g : Nat) (h : Inv s) (hm : e ∈ subsOf s l g) :
+    Inv (evOnSignal repaired s l e g) := by
+  rw [evOnSignal_eq]; exact runScript_inv _ _ _ (evPre_inv s l e g h hm)
 
-theorem dispatch_inv (s : State) (l g : Nat) (todo : List Nat) (h : Inv s) (hnd : todo.Nodup)
-    (hm : ∀ e ∈ todo, e ∈ subsOf s l g) : Inv (dispatch s l g todo) := by
+/-- the repaired dispatch loop: one step -/
+theorem dispatch_cons (s : State) (l g e : Nat) (es : List Nat) :
+    dispatch repaired s l g (e :: es) =
+      if e ∈ subsOf s l g then dispatch repaired (evOnSignal repaired s l e g) l g es else dispatch repaired s l g es := by
+  simp only [dispatch, repaired, Bool.true_and, Bool.not_eq_eq_eq_not, Bool.not_true, List.contains_eq_mem,
+    decide_eq_false_iff_not]
+  by_cases hm : e ∈ subsOf s l g <;> simp [hm]
+
+theorem dispatch_inv (s : State) (l g : Nat) (todo : List Nat) (h : Inv s) : Inv (dispatch repaired s l g todo) := by
   induction todo generalizing s with
   | nil => exact h
   | cons e es ih =>
-    rw [List.nodup_cons] at hnd
-    have h1 := evOnSignal_inv s l e g h (hm e List.mem_cons_self)
-    refine ih _ h1 hnd.2 ?_
-    intro e' he'
-    have hne : e' ≠ e := fun hh => hnd.1 (hh ▸ he')
-    rw [h1.mem, evOnSignal_evs_other s l e g e' hne]
-    exact (h.mem l g e').1 (hm e' (List.mem_cons_of_mem _ he'))
+    rw [dispatch_cons]
+    split
+    · rename_i hm; exact ih _ (evOnSignal_inv s l e g h hm)
+    · exact ih _ h
 
-theorem passItems_inv (s : State) (l : Nat) (items : List Nat) (h : Inv s) : Inv (passItems s l items) := by
+theorem passChunk_inv (s : State) (l : Nat) (ord items : List Nat) (h : Inv s) :
+    Inv (passChunk repaired s l ord items) := by
   induction items generalizing s with
   | nil => exact h
-  | cons g gs ih => exact ih _ (dispatch_inv s l g _ h (h.core.ndSubs l g) (fun _ he => he))
+  | cons g gs ih => exact ih _ (dispatch_inv s l g _ h)
 
-theorem pass_inv (s : State) (l : Nat) (h : Inv s) : Inv (pass s l) := by
-  unfold pass
-  apply passItems_inv
+/-- taking numbers out of a loop's pipe keeps the invariant -/
+theorem setPipe_inv (s : State) (l : Nat) (p : List Nat) (h : Inv s) (hp : s.hasPipe l = true) :
+    Inv { s with pipe := upd s.pipe l p } := by
   refine inv_of_core h ?_ rfl rfl rfl rfl
   have hc := h.core
-  refine ⟨hc.fdsIff, hc.ctxSome, hc.osTbox, hc.oldOk, hc.entries, hc.pipeIff, ?_, hc.ndSubs, hc.ndFds⟩
-  intro l' hp
-  show upd s.pipe l [] l' = []
+  refine ⟨hc.fdsIff, hc.osTbox, hc.oldOk, hc.invalid, hc.entries, hc.pipeIff, ?_, hc.ndSubs, hc.ndFds⟩
+  intro l' hp'
+  show upd s.pipe l p l' = []
   by_cases hl : l' = l
-  · simp [hl]
-  · simp only [upd_apply, hl, ↓reduceIte]; exact hc.pipeNil l' hp
+  · subst hl; have hp'' : s.hasPipe l' = false := hp'; rw [hp] at hp''; cases hp''
+  · simp only [upd_apply, hl, ↓reduceIte]; exact hc.pipeNil l' hp'
 
-theorem step_inv (s : State) (op : Op) (h : Inv s) (hv : valid s op = true) : Inv (step s op) := by
+/-- generic induction over the read loop of `CommonLoop::onSignal` -/
+theorem passLoop_ind (l : Nat) (ord : List Nat) (P : State → Prop)
+    (hChunk : ∀ s items, Inv s → P s → P (passChunk repaired s l ord items))
+    (hPipe : ∀ s p, P s → P { s with pipe := upd s.pipe l p })
+    (fuel : Nat) (s : State) (h : Inv s) (hp : P s) :
+    Inv (passLoop repaired l ord fuel s) ∧ P (passLoop repaired l ord fuel s) := by
+  induction fuel generalizing s with
+  | zero => exact ⟨h, hp⟩
+  | succ n ih =>
+    unfold passLoop
+    by_cases hpipe : s.hasPipe l = true
+    · simp only [hpipe, Bool.not_true, Bool.false_eq_true, ↓reduceIte]
+      split
+      · exact ⟨h, hp⟩
+      · have h1 := setPipe_inv s l ((s.pipe l).drop 10) h hpipe
+        exact ih _ (passChunk_inv _ l ord _ h1) (hChunk _ _ h1 (hPipe s _ hp))
+    · simp only [hpipe, Bool.not_false, ↓reduceIte]; exact ⟨h, hp⟩
+
+theorem pass_inv (s : State) (l : Nat) (ord : List Nat) (h : Inv s) : Inv (pass repaired s l ord) :=
+  (passLoop_ind l ord (fun _ => True) (fun _ _ _ _ => trivial) (fun _ _ _ => trivial) _ s h trivial).1
+
+theorem step_inv (s : State) (op : Op) (h : Inv s) (hv : valid s op = true) : Inv (step repaired s op) := by
   cases op with
-  | newEv l => exact newEv_inv s l h
+  | newEv l sc => exact newEv_inv s l sc h
   | init e sigs o => exact initEv_inv s e sigs o h hv
   | enable e => exact enable_inv s e h
   | disable e => exact disable_inv s e h
   | destroy e => exact destroy_inv s e h
   | setDisp g d => exact setDisp_inv s g d h hv
   | raise g => exact raise_inv s g h
-  | pass l => exact pass_inv s l h
+  | pass l ord => exact pass_inv s l ord h
 
 /-- every state reachable by a history of the property satisfies the invariant -/
-theorem exec_inv (s : State) (ops : List Op) (h : Inv s) (s' : State) (he : exec s ops = some s') : Inv s' := by
+theorem exec_inv (s : State) (ops : List Op) (h : Inv s) (s' : State) (he : exec repaired s ops = some s') : Inv s' := by
   induction ops generalizing s with
   | nil => simp only [exec, Option.some.injEq] at he; exact he ▸ h
   | cons op ops ih =>
